@@ -9,5 +9,7 @@ git apply $D/$K/patch.diff || { echo "PATCH DOES NOT APPLY"; exit 3; }
 echo "== baseline with change:"; python3 /verif/tools/baseline_check.py /tmp/lead_mut_tree
 echo "== demo with change:"; PYTHONPATH=/tmp/lead_mut_tree/src /venv/bin/python $D/$K/demo.py > /root/scratch/demo_mut.out 2>&1; echo "exit $?"
 echo "== check $P ($TIER) against the change:"
-cd /verif && VERIF_REPO=/tmp/lead_mut_tree ./check $P --tier $TIER --keep 2>&1 | grep -v '^"{' | grep "VIOLATION\|KNOWN\|$P $TIER\|MACHINERY" | cut -c1-200 | tail -6
+# the check runs from a copy of /verif so that evidence/ and .work/ of /verif itself are not touched
+rsync -a --delete --exclude .work --exclude .git /verif/ /root/scratch/verif_mut/
+cd /root/scratch/verif_mut && VERIF_REPO=/tmp/lead_mut_tree ./check $P --tier $TIER --keep 2>&1 | grep -v '^"{' | grep "VIOLATION\|KNOWN\|$P $TIER\|MACHINERY" | cut -c1-200 | tail -6
 cd /tmp/lead_mut_tree && git checkout -q -- . && git clean -fdq
